@@ -80,6 +80,9 @@ FIXED += [
     ("C15", "c5fe120", "expression texts (the keys of the per-row value map) wrote text literals bare: `length('Size')` / `length(size)`, `concat('a, b')` / `concat('a', 'b')`, `length(upper('x'))` / `length('Upper(x)')` shared a key and the first one decided both values (audit agents C15/C16; C15 now runs confusable pairs)", []),
     ("C10", "f5d65fe", "`width` / `height` on a directory, dangling link, unreadable or non-UTF-8 file called *.svg panicked (unwrap of svg::open) (audit agents C10/C17; C10's tree now has such entries)", []),
     ("C10", "eddf26a", "2500 nested brackets or 3000 nested function calls (a 5 KB argument) overflowed the stack: SIGABRT (audit agent; enumerated in C10)", []),
+    ("C16", "b5d88fb", "`substr('hello', 2, 0)` returned `ello` (length 0 taken for no length) (audit agent; the reference no longer treats length 0 as don't-care)", []),
+    ("C16", "22fd575", "INITCAP rewrote white space (`initcap('a   b')` was 3 characters long, tabs became blanks, leading blanks vanished) (audit agent; the check's own reference had mirrored the implementation - corrected to the documentation's wording)", []),
+    ("C19", "129a060", "encrypted members and members with an unsupported compression method were silently dropped although their directory entries are complete (audit agent; one generated member in eight is now such a member)", []),
     ("C10", "9b6a0a7", "day('2020-0\u0661-01'): the date pattern matched non-ASCII digits and the integer parse of the capture was unwrapped (found by the eval_total fuzz target after 2e7 executions)", ["date-non-ascii-digit"]),
     ("C10", "69a0b27", "`name from './[a' depth 1 rx`: a malformed pattern in a regexp search root panicked (unwrap of Regex::new)", ["regexp-root-malformed"]),
 ]
